@@ -571,16 +571,16 @@ theorem graphChain_glue (g : Graph) (l : List Nat) (v : Nat) (rest : List Nat)
       rw [List.getLast?_cons_cons] at hlast
       exact ⟨hab, ih hbl hlast⟩
 
-theorem build_forward (is : List Instr) (g : Graph) (h : build is = some g) : Forward g := by
-  obtain ⟨hi, he⟩ := build_edges is g h
+theorem build_forward (is : List Instr) (g : Graph) (h : Represents is g) : Forward g := by
+  obtain ⟨hi, he⟩ := h
   intro a b hab
   obtain ⟨h1, h2, _⟩ := (he a b).1 hab
   rw [hi]; exact ⟨h1, h2⟩
 
 /-- chains of the statement = non-empty chains of graph edges inside the node range -/
-theorem isChain_iff (is : List Instr) (g : Graph) (h : build is = some g) (c : List Nat) :
+theorem isChain_iff (is : List Instr) (g : Graph) (h : Represents is g) (c : List Nat) :
     IsChain is c ↔ (c ≠ [] ∧ GraphChain g c ∧ ∀ v, v ∈ c → v < is.length) := by
-  obtain ⟨hi, he⟩ := build_edges is g h
+  obtain ⟨hi, he⟩ := h
   induction c with
   | nil => simp [IsChain]
   | cons a c ih =>
